@@ -280,7 +280,7 @@ func (p *pair) eval(t time.Time, plain bool) (mm *mismatch, nontrivial bool) {
 	mm = p.judge(t, ans, got, false)
 	if mm != nil && strings.Contains(mm.Key, ";no-transition;") {
 		if tr, ok := p.farCulprit(t, ans); ok {
-			mm.Key = "zone=" + p.zi.name + ";transition=" + time.Unix(tr, 0).UTC().Format(time.RFC3339)
+			mm.Key = "zone=" + p.zi.name + ";transition=" + time.Unix(tr, 0).UTC().Format(time.RFC3339) + mm.Key[strings.Index(mm.Key, ";kind="):]
 		}
 	}
 	return mm, nontrivial
@@ -363,13 +363,36 @@ func (p *pair) judge(t time.Time, ans cronref.Answer, got time.Time, hung bool) 
 	if !hung && !gotZero && (e == 0 || got.Unix() < e) {
 		e = got.Unix()
 	}
+	// kind: what is wrong with kit's answer; field: for a non-matching answer the
+	// first (coarsest) field of its wall-clock reading the expression rejects,
+	// otherwise the coarsest wall-clock unit in which it differs from the
+	// earliest match ("offset": same reading, other occurrence; "never": zero time).
+	kind, field := "late", "never"
+	switch {
+	case hung:
+		kind, field = "no-return", "none"
+	case !gotZero && (!p.ref.Matches(got.In(loc)) || got.Nanosecond() != 0):
+		kind, field = "nonmatching", p.ref.Mismatch(got.In(loc))
+		if field == "" {
+			field = "subsecond"
+		}
+	case !gotZero:
+		if ans.Found && got.Unix() < ans.Unix {
+			kind = "early"
+		}
+		field = "beyond-horizon"
+		if ans.Found {
+			field = wallDiff(got.In(loc), time.Unix(ans.Unix, 0).In(loc))
+		}
+	}
+	suffix := ";kind=" + kind + ";field=" + field
 	key := ""
 	if tr, found := p.zi.z.Nearest(e, near); found && e != 0 {
-		key = "zone=" + p.zi.name + ";transition=" + time.Unix(tr, 0).UTC().Format(time.RFC3339)
+		key = "zone=" + p.zi.name + ";transition=" + time.Unix(tr, 0).UTC().Format(time.RFC3339) + suffix
 	} else if tr, found := p.zi.z.Nearest(t.Unix(), near); found {
-		key = "zone=" + p.zi.name + ";transition=" + time.Unix(tr, 0).UTC().Format(time.RFC3339)
+		key = "zone=" + p.zi.name + ";transition=" + time.Unix(tr, 0).UTC().Format(time.RFC3339) + suffix
 	} else {
-		key = "zone=" + p.zi.name + ";no-transition;spec=" + strings.ReplaceAll(p.spec, " ", "_")
+		key = "zone=" + p.zi.name + ";no-transition;spec=" + strings.ReplaceAll(p.spec, " ", "_") + suffix
 	}
 	f := func(u int64, zero bool) string {
 		if zero {
@@ -388,11 +411,34 @@ func (p *pair) judge(t time.Time, ans cronref.Answer, got time.Time, hung bool) 
 	} else if !gotZero && !got.After(t) {
 		what = "is not strictly after t"
 	} else if !gotZero && ans.Found && got.Unix() < ans.Unix {
-		what = "precedes the reference (reference fault?)"
+		what = "is earlier than the reference's answer yet not after t or otherwise wrong (reference fault?)"
 	} else if !gotZero && got.Nanosecond() != 0 {
 		what = "is not a whole second"
 	}
 	return &mismatch{Key: key, Msg: fmt.Sprintf("%s = %s, which %s; earliest match: %s", head, f(got.Unix(), gotZero), what, f(ans.Unix, !ans.Found)), C: c, N: 1}
+}
+
+// wallDiff: the coarsest wall-clock unit in which two readings differ.
+func wallDiff(a, b time.Time) string {
+	ay, am, ad := a.Date()
+	by, bm, bd := b.Date()
+	ah, ami, as := a.Clock()
+	bh, bmi, bs := b.Clock()
+	switch {
+	case ay != by:
+		return "year"
+	case am != bm:
+		return "month"
+	case ad != bd:
+		return "day"
+	case ah != bh:
+		return "hour"
+	case ami != bmi:
+		return "minute"
+	case as != bs:
+		return "second"
+	}
+	return "offset"
 }
 
 func less(a, b rcase) bool {
@@ -1010,7 +1056,7 @@ func classify(key string, zis []*zoneInfo) string {
 	}
 	parts := strings.SplitN(key, ";transition=", 2)
 	name := strings.TrimPrefix(parts[0], "zone=")
-	tr, err := time.Parse(time.RFC3339, parts[1])
+	tr, err := time.Parse(time.RFC3339, strings.SplitN(parts[1], ";", 2)[0])
 	if err != nil {
 		return "?"
 	}
